@@ -551,5 +551,8 @@ def run(rep, facts, tier):
                       'excluded bounds, the poisoned topic-cache mutex then stops the receive thread too')
     from rules.C01 import rule_reliable_window
     rule_reliable_window(rep, facts['default'], 'R06.4')
+    # the copy window of the fragment assembler (shared with C05 R05.12): the clamp to the buffer is what keeps a padded / hostile last fragment from slicing past the end
+    from rules.C05 import rule_copy_window
+    rule_copy_window(rep, facts['default'], 'R06.5')
     if tier == 'thorough' and 'security' in facts:
         run_config(rep, facts['security'], 'security', floor=False)
